@@ -233,8 +233,9 @@ Fixpoint is_prefix (a b : list Z) : bool :=
 
 (* a case of the Pool family: the trace, the user-function calls in invocation order, whether the
    harness process crashed in this case (library panic / goroutines that never exit), and how the
-   schedule was produced (0 random, 1 consumer keeps up, 2 idle then burst, 3 absent consumer, 4 enumerated, 5 steady) *)
+   schedule was produced (0 random, 1 consumer keeps up, 2 idle then burst, 3 absent consumer, 4 enumerated, 5 steady, 9 free-running pseudo-trace) *)
 Record case := mkC { pc : pcase; calls : list Z; crashed : bool; sched : N }.
 
+(* free-running cases (sched = 9) are pseudo-traces of complete runs: only the oracle judges them *)
 Definition mismatches (cs : list case) : list N :=
-  idx_where (fun c => negb (accepts (pc c)) || crashed c) 0%N cs.
+  idx_where (fun c => if N.eqb (sched c) 9 then crashed c else negb (accepts (pc c)) || crashed c) 0%N cs.
